@@ -244,7 +244,7 @@ def r06_5_all_items(ctx: Ctx):
                           f'({"GetImage(" + C.fmt(img_t) + ")" if img_t is not None else C.fmt(pt)}): the stored '
                           f'point is not the evolvent image of the stored coordinate',
                           key=f'{rid}::{f.short}::item-not-image')
-    ctx.floor(rid, 'search item constructions in the library', n, 4)
+    ctx.floor(rid, 'search item constructions in the library', n, 2)
 
 
 def r06_7_hint_source(ctx: Ctx):
